@@ -51,7 +51,7 @@ def run(ctx):
     ctx.extra["driver"] = s
     ctx.evaluations = s["lines"]
     ctx.distinct = s["scenarios"]
-    ctx.validate("Fai", "FaiTrace", "FaiTrace.cfg", trace)
+    ctx.validate("Fai", "FaiTrace", "FaiTrace.cfg", trace, timeout=9000)   # thorough: 34 000 events with reads of up to 5 000 bases
     ctx.add_samples(trace, n=2, maxlines=6)
     if ctx.tier == "thorough":
         ctx.selftest("Fai", "FaiTrace", "FaiTrace.cfg", trace,
